@@ -203,6 +203,41 @@ theorem find_shallowest {l : List Entry} (hs : DepthSorted l) {pr : Entry → Bo
       · rw [ha] at hp; cases hp
       · exact ih (depthSorted_cons hs) hv w hw hp
 
+theorem depthSorted_of_forall {a : Entry} {l : List Entry} (h1 : ∀ x ∈ l, a.1.length ≤ x.1.length) (h2 : DepthSorted l) :
+    DepthSorted (a :: l) := by
+  cases l with
+  | nil => trivial
+  | cons b r => exact ⟨h1 b (by simp), h2⟩
+
+theorem depthSorted_filter (p : Entry → Bool) {l : List Entry} (h : DepthSorted l) : DepthSorted (l.filter p) := by
+  induction l with
+  | nil => trivial
+  | cons a rest ih =>
+    have ih := ih (depthSorted_cons h)
+    rw [List.filter_cons]
+    split
+    · exact depthSorted_of_forall (fun x hx => depthSorted_head_le h x (List.mem_filter.mp hx).1) ih
+    · exact ih
+
+/-- in a depth-sorted list the last element is a deepest one -/
+theorem getLast_deepest {l : List Entry} (h : DepthSorted l) {v : Entry} (hv : l.getLast? = some v) :
+    ∀ w ∈ l, w.1.length ≤ v.1.length := by
+  induction l with
+  | nil => simp at hv
+  | cons a rest ih =>
+    cases rest with
+    | nil =>
+      intro w hw
+      simp at hv hw
+      subst hv; subst hw; exact Nat.le_refl _
+    | cons b r =>
+      have hv' : (b :: r).getLast? = some v := by simpa [List.getLast?_cons_cons] using hv
+      have ih := ih (depthSorted_cons h) hv'
+      intro w hw
+      rcases List.mem_cons.mp hw with rfl | hw
+      · exact Nat.le_trans h.1 (ih b (by simp))
+      · exact ih w hw
+
 /-! ### small generic facts used by Props/C19 -/
 
 theorem inRanges_iff (rs : List Range) (pc : Nat) : inRanges rs pc = true ↔ ∃ r ∈ rs, r.lo ≤ pc ∧ pc < r.hi := by
